@@ -4,7 +4,7 @@ import re
 from .. import callgraph, witness
 from ..vflow import Canon, strip_int_casts, strip_ptr_casts, derived_pointers, access_path
 from ..cfg import natural_loops, reachable_from, reaches_without
-from ..guards import Facts
+from ..guards import Facts, implied_atoms
 from ..ir import INT
 from ..build import AnalysisBroken
 
@@ -206,35 +206,45 @@ def rule_realign(ctx, P, rb, rc):
     for arr, role in arrays:
         A, _ = derived_pointers(f, [arr])
         elem_loads = [i for i in f.insts() if i.op == 'load' and i.ops[0] in A and i.ty == 'i8*']
-        checks = [i for i in f.insts() if i.op == 'call' and i.callee == '@is_addr_aligned']
+        # the alignment test is recognised by what it computes, not by the helper it calls: is_addr_aligned (a static inline
+        # helper, inlined by the build step) leaves `(address & 15) == 0` / `address % 16 == 0` on a conditional branch
+        def low_bits_of(v):
+            """(element load, modulus) if v is (ptrtoint elem) & (m - 1) or (ptrtoint elem) % m"""
+            d = f.defs.get(v)
+            while d is not None and d.op in ('zext', 'sext', 'trunc'):
+                d = f.defs.get(d.ops[0])
+            if d is None or d.op not in ('and', 'urem', 'srem'):
+                return None
+            for x, y in (d.ops, d.ops[::-1]):
+                if INT.match(y):
+                    src = f.defs.get(x)
+                    while src is not None and src.op in ('ptrtoint', 'bitcast', 'zext', 'sext', 'trunc'):
+                        src = f.defs.get(src.ops[0])
+                    if src is not None and src in elem_loads:
+                        return src, (int(y) + 1 if d.op == 'and' else int(y))
+            return None
         mine = []
-        for c in checks:
-            d = f.defs.get(c.ops[0])
-            src = f.defs.get(d.ops[0]) if d is not None and d.op == 'ptrtoint' else None
-            if src is not None and src in elem_loads:
-                mine.append(c)
+        for b in f.order:
+            t = b.insts[-1]
+            if t.op == 'br' and len(t.targets) == 2 and t.ops and t.targets[0] != t.targets[1]:
+                # the edge on which "aligned" is established (alone or together with other tests, e.g. p != NULL && aligned(p));
+                # the other edge is the one that has to replace the buffer
+                for edge_truth in (True, False):
+                    for d, tv in implied_atoms(f, t.ops[0], edge_truth):
+                        if d.pred in ('eq', 'ne') and '0' in d.ops and (d.pred == 'eq') == tv:
+                            lb = low_bits_of(d.ops[0] if d.ops[1] == '0' else d.ops[1])
+                            if lb is not None:
+                                mine.append((d, lb[1], b, f.blocks[t.targets[1 if edge_truth else 0]], f.blocks[t.targets[0 if edge_truth else 1]]))
         inst = f'prepare_fragments_for_decode: {role}[] elements are alignment-checked'
         if not mine:
             r_ = rb.fail(inst, func=f.name, sig=f'{role}[] never alignment-checked', loc=f.mod.src,
                          msg=f'no is_addr_aligned test on {role}[i]: an unaligned caller buffer reaches the 128-bit XOR / GF kernels')
             continue
-        c = mine[0]
-        if c.ops[1] != '16':
-            rb.fail(inst, func=f.name, sig=f'{role}[] checked for alignment {c.ops[1]}', loc=c.loc, msg=f'alignment tested is {c.ops[1]}, the kernels need 16')
+        c, modulus, b, unal, al = mine[0]
+        if modulus % 16 != 0 or modulus & (modulus - 1):
+            rb.fail(inst, func=f.name, sig=f'{role}[] checked for alignment {modulus}', loc=c.loc, msg=f'alignment tested is {modulus}, the kernels need 16')
             continue
-        # the not-aligned edge must store a fresh allocation into arr[i] before the block merges back
-        br = None
-        for b in f.order:
-            t = b.insts[-1]
-            if t.op == 'br' and len(t.targets) == 2 and t.ops:
-                d = f.defs.get(t.ops[0])
-                if d is not None and d.op == 'icmp' and c.res in d.ops and '0' in d.ops:
-                    unal = t.targets[1] if d.pred == 'ne' else t.targets[0]
-                    al = t.targets[0] if d.pred == 'ne' else t.targets[1]
-                    br = (b, f.blocks[unal], f.blocks[al])
-        if br is None:
-            rb.fail(inst, func=f.name, sig=f'{role}[] alignment result unused', loc=c.loc, msg='the result of is_addr_aligned is not branched on')
-            continue
+        br = (b, unal, al)
         b, unal, al = br
         def is_replace(i):
             return i.op == 'store' and i.ops[1] in A and f.defs.get(i.ops[0]) is not None and f.defs[i.ops[0]].op == 'call' \
